@@ -15,9 +15,10 @@
     * `vec_to_ptr_machine`: the two instructions of `move_vec_to_ptr` leave the pointer and the vector in the temporary;
     * `reg_reg_arg_machine`: 8/16-bit registers for wider integer register parameters are extended (fix C06-17);
     * `reg_arg_not_extended_witness`: the open finding C06-K9 (an int32 register for an int64 register parameter is NOT sign-extended).
-  Not proved: a single theorem for whole argument lists on the machine (the per-path theorems above + `temps_ok` are its pieces; what
-  is missing is the frame rule that distinct stack arguments do not overlap, which is `detail_matches_abi_*` of Props/C06.lean, and
-  the register allocator, C05); the post-RA instruction list of every generated call is judged by the same machine (monitor).
+  Whole argument lists: Props/C06InvokeList.lean (`pack_machine`, `invoke_int_args_machine`) composes these per-path theorems for any
+  number of integer arguments by a frame argument (every block writes only its own registers and its own slot).  Not in the list
+  theorem yet: vector / by-reference arguments (their pieces are `vec_to_ptr_machine` + `temps_ok`) and the register allocator (C05);
+  the post-RA instruction list of every generated call is judged by the same machine (monitor).
 -/
 import AsmjitVerif.Model.InvokeLower
 import AsmjitVerif.Spec.InvokeMachine
